@@ -53,3 +53,30 @@ def good_unpack(statements: list) -> object:
         raise SyntaxError('expected one')
     stmt, = statements
     return stmt
+
+
+def bad_pop(names):
+    args = list(names)
+    args.pop(0)
+    return args
+
+
+def good_pop(names):
+    args = list(names)
+    if args:
+        args.pop(0)
+    return args
+
+
+def bad_mapget(obj, name):
+    member = obj.contents.get(name)
+    member.kind = 1
+    return member
+
+
+def good_mapget(obj, name):
+    member = obj.contents.get(name)
+    if member is None:
+        return None
+    member.kind = 1
+    return member
